@@ -1,32 +1,20 @@
-(* Corollaries of the refinement theorem: reset, single-cluster binning, centre round trip. *)
+(* Corollaries of the refinement theorems: single-cluster binning, centre round trip, clusters outside. *)
 From Coq Require Import ZArith QArith Qround List Bool Lia Lqa Arith.
-From PyxelV Require Import Model.Charge Proofs.ChargeLemmas Proofs.ChargeRefine.
+From PyxelV Require Import Model.Charge Proofs.ChargeLemmas Proofs.ChargeRefine Proofs.ChargeIdeal.
 Import ListNotations.
 Open Scope Q_scope.
 
-Theorem read_after_reset g ops :
-  geom_ok g = true -> forallb (op_ok_in g) ops = true ->
-  exists m, read_after g (ops ++ [Reset]) = OArr m /\ Shape (g_rows g) (g_cols g) m /\
-    forall i j, (i < g_rows g)%nat -> (j < g_cols g)%nat -> mget m i j == 0.
-Proof.
-  intros Hg Hok.
-  assert (H : forallb (op_ok_in g) (ops ++ [Reset]) = true) by (rewrite forallb_app, Hok; reflexivity).
-  destruct (read_refines_accumulator g _ Hg H) as [m [E [S G]]].
-  exists m. split; [exact E|]. split; [exact S|].
-  intros i j Hi Hj. rewrite (G i j Hi Hj), spec_acc_reset. reflexivity.
-Qed.
-
+(* ANY single cluster -- inside or outside the sensitive area -- is read back in the pixel
+   (floor(v/ph), floor(h/pw)) if that is a pixel of the array, and nowhere else *)
 Theorem binning_single g c :
-  geom_ok g = true -> inside g c = true ->
+  geom_ok g = true ->
   exists m, read_after g [AddClusters [c]] = OArr m /\ Shape (g_rows g) (g_cols g) m /\
     forall i j, (i < g_rows g)%nat -> (j < g_cols g)%nat ->
       mget m i j == if (Qfloor (c_v c / g_ph g) =? Z.of_nat i)%Z && (Qfloor (c_h c / g_pw g) =? Z.of_nat j)%Z
                     then c_n c else 0.
 Proof.
-  intros Hg Hi.
-  assert (H : forallb (op_ok_in g) [AddClusters [c]] = true).
-  { unfold op_ok_in. simpl. rewrite Hi. reflexivity. }
-  destruct (read_refines_accumulator g _ Hg H) as [m [E [S G]]].
+  intros Hg.
+  destruct (read_refines_accumulator g [AddClusters [c]] Hg eq_refl) as [m [E [S G]]].
   exists m. split; [exact E|]. split; [exact S|].
   intros i j Hi' Hj'. rewrite (G i j Hi' Hj'). unfold spec_acc, acc_of. cbn [fold_left acc_step credit fold_right]. unfold hit_exact, pix.
   destruct ((Qfloor (c_v c / g_ph g) =? Z.of_nat i)%Z && (Qfloor (c_h c / g_pw g) =? Z.of_nat j)%Z); ring.
@@ -35,15 +23,62 @@ Qed.
 (* array -> clusters at pixel centres -> array gives the array back (non-negative entries) *)
 Theorem centres_roundtrip g a cs :
   geom_ok g = true -> shape_ok (g_rows g) (g_cols g) a = true -> nonneg_matrix a = true ->
-  forallb (inside g) cs = true ->
   exists m, read_after g [AddArray a; AddClusters cs] = OArr m /\ Shape (g_rows g) (g_cols g) m /\
     forall i j, (i < g_rows g)%nat -> (j < g_cols g)%nat ->
       mget m i j == mget a i j + credit (hit_exact g) cs i j.
 Proof.
-  intros Hg Hs Hn Hc.
-  assert (H : forallb (op_ok_in g) [AddArray a; AddClusters cs] = true).
-  { unfold op_ok_in. simpl. rewrite Hn, Hc. reflexivity. }
+  intros Hg Hs Hn.
+  assert (H : forallb op_ok [AddArray a; AddClusters cs] = true).
+  { unfold op_ok. simpl. rewrite Hn. reflexivity. }
   destruct (read_refines_accumulator g _ Hg H) as [m [E [S G]]].
   exists m. split; [exact E|]. split; [exact S|].
   intros i j Hi' Hj'. rewrite (G i j Hi' Hj'). unfold spec_acc, acc_of. cbn [fold_left acc_step]. rewrite Hs. ring.
+Qed.
+
+(* a cluster outside the sensitive area is credited to no pixel *)
+Lemma credit_outside g cs i j :
+  geom_ok g = true -> (i < g_rows g)%nat -> (j < g_cols g)%nat ->
+  forallb (fun c => negb (inside g c)) cs = true -> credit (hit_exact g) cs i j == 0.
+Proof.
+  intros Hg Hi Hj. induction cs as [|c t IH]; simpl; intros H; [reflexivity|].
+  apply andb_true_iff in H. destruct H as [Hc Ht]. rewrite (IH Ht).
+  destruct (hit_exact g c i j) eqn:E; [|ring].
+  apply (hit_exact_kept g c i j Hi Hj) in E. apply (kept_inside g c Hg) in E. rewrite E in Hc. discriminate.
+Qed.
+
+(* adding clusters that all lie outside the sensitive area changes no pixel, after ANY history
+   (removals included); and the read is an array (no out-of-bounds access) *)
+Theorem outside_adds_nothing g ops cs :
+  geom_ok g = true -> forallb op_arrays_nonneg ops = true ->
+  forallb (fun c => negb (inside g c)) cs = true ->
+  obs_equiv g (read_after g (ops ++ [AddClusters cs])) (read_after g ops).
+Proof.
+  intros Hg Hok Hout.
+  assert (Hok' : forallb op_arrays_nonneg (ops ++ [AddClusters cs]) = true)
+    by (rewrite forallb_app, Hok; reflexivity).
+  destruct (read_refines_ledger g _ Hg Hok') as [m [E [S G]]].
+  destruct (read_refines_ledger g _ Hg Hok) as [m' [E' [S' G']]].
+  rewrite E, E'. simpl. split; [exact S|]. split; [exact S'|].
+  intros i j Hi Hj. rewrite (G i j Hi Hj), (G' i j Hi Hj).
+  unfold spec_ledger. rewrite ledger_snoc. unfold ledger_step. cbn [fst removal_ids acc_step].
+  rewrite (credit_outside g cs i j Hg Hi Hj Hout). ring.
+Qed.
+
+(* a removal debits exactly the clusters it takes out of the live frame, after ANY history *)
+Theorem removal_subtracts g ops o ids :
+  geom_ok g = true -> forallb op_arrays_nonneg ops = true -> removal_ids o = Some ids ->
+  exists m m', read_after g ops = OArr m /\ read_after g (ops ++ [o]) = OArr m' /\
+    Shape (g_rows g) (g_cols g) m /\ Shape (g_rows g) (g_cols g) m' /\
+    forall i j, (i < g_rows g)%nat -> (j < g_cols g)%nat ->
+      mget m' i j == mget m i j - credit (hit_exact g) (fcl (selected ids (frame_after g ops))) i j.
+Proof.
+  intros Hg Hok Hr.
+  assert (Hok' : forallb op_arrays_nonneg (ops ++ [o]) = true).
+  { rewrite forallb_app, Hok. destruct o; simpl in *; auto; discriminate. }
+  destruct (read_refines_ledger g _ Hg Hok') as [m' [E' [S' G']]].
+  destruct (read_refines_ledger g _ Hg Hok) as [m [E [S G]]].
+  exists m, m'. split; [exact E|]. split; [exact E'|]. split; [exact S|]. split; [exact S'|].
+  intros i j Hi Hj. rewrite (G' i j Hi Hj), (G i j Hi Hj).
+  unfold spec_ledger. rewrite ledger_snoc. unfold ledger_step. cbn [fst]. rewrite Hr, ledger_state, frame_sim_ideal.
+  reflexivity.
 Qed.
